@@ -276,6 +276,30 @@ pub fn run(ctx: &Ctx) -> i32 {
         }
     }
     ctx.eval(1024);
+    // Rand[y, i, m] for every y with at most two non-zero bytes (all byte positions, all byte values),
+    // i in 0..=5 as Tuple[] uses it, and the moduli Tuple[] uses: a special case for "short" y would show here
+    let rand_bad = AtomicU64::new(0);
+    let rand_n = AtomicU64::new(0);
+    par_for(256, |b0| {
+        let mut n = 0u64;
+        for (s0, s1) in [(0u32, 8u32), (0, 16), (0, 24), (8, 16), (8, 24), (16, 24)] {
+            for b1 in 0..256u64 {
+                let y = ((b0 as u64) << s0) | (b1 << s1);
+                for i in 0..6u64 {
+                    let m = [1u64 << 20, 2, 65521, 256, u32::MAX as u64, 3][i as usize];
+                    let want = rm::rand(y, i, m);
+                    let got = guarded(|| v::rand(y as u32, i as u32, m as u32)).map(|x| x as u64);
+                    n += 1;
+                    if got != Ok(want) && rand_bad.fetch_add(1, Relaxed) < 5 {
+                        ctx.violation(format!("C15 rand y={y} i={i} m={m}"), format!("Rand[{y}, {i}, {m}]: crate gives {:?}, RFC 5.3.5.1 gives {want}", got.map_err(|e| short(&e, 80))), J::obj(vec![("kind", J::s("rand")), ("y", J::i(y))]));
+                    }
+                }
+            }
+        }
+        rand_n.fetch_add(n, Relaxed);
+    });
+    ctx.eval(rand_n.load(Relaxed) as usize);
+    ctx.cov("rand_probes_y_with_at_most_two_nonzero_bytes", J::i(rand_n.load(Relaxed)));
     // (3) producing and consuming: hostile ISIs, the top ESI, and a sample of blocks
     let mut pc = vec![];
     for &(kp, x) in &hl {
